@@ -87,6 +87,29 @@ def ordered(kw):
 
 
 # ------------------------------------------------------------------ real execution
+def _fingerprint(m):
+    """Results of an existing metric on fixed aggregates: analysis and the three power solutions (or the exception type)."""
+    import tea_tasting.aggr as A
+    mk = lambda n, mu, v: A.Aggregates(count_=n, mean_={"x": mu, "y": 2.0}, var_={"x": v, "y": 1.5}, cov_={("x", "y"): 0.3})
+    out = []
+    try:
+        out.append(tuple(round(float(z), 12) for z in m.analyze_aggregates(mk(400, 10.0, 4.0), mk(500, 10.4, 5.0))))
+    except Exception as e:
+        out.append(type(e).__name__)
+    for par in ("rel_effect_size", "power"):
+        old = m.rel_effect_size
+        try:
+            if par == "power":
+                m.rel_effect_size = 0.05
+            res = m.solve_power(mk(900, 10.0, 4.5), par)
+            out.append(tuple(tuple(round(float(z), 10) for z in r) for r in res))
+        except Exception as e:
+            out.append(type(e).__name__)
+        finally:
+            m.rel_effect_size = old
+    return tuple(out)
+
+
 def run_real(pool, ops):
     import tea_tasting as tt
     import tea_tasting.config as C
@@ -125,7 +148,7 @@ def run_real(pool, ops):
                     want = kw[n] if n in kw else snap[n]
                     if getattr(m, n) is not want and getattr(m, n) != want:
                         trace.append((f"metric.{n} is neither the explicit argument nor the configuration in force", op))
-                metrics.append((m, {n: getattr(m, n) for n in CTOR}))
+                metrics.append((m, {n: getattr(m, n) for n in CTOR}, _fingerprint(m)))
             else:
                 before = dict(C._global_config)
                 try:
@@ -147,12 +170,23 @@ def run_real(pool, ops):
         out = 4
     except Exception:
         out = 3
-    for m, at_construction in metrics:
+    for m, at_construction, fp in metrics:
         for n in CTOR:
             if getattr(m, n) is not at_construction[n]:
                 trace.append((f"metric.{n} changed after construction", None))
+        # later configuration changes never alter an existing metric's RESULTS: at the end of the history, and inside
+        # a context that sets every standard option differently
+        if _fingerprint(m) != fp:
+            trace.append(("results of an existing metric changed after later configuration changes", None))
+        try:
+            with tt.config_context(alpha=0.2, alternative="less", confidence_level=0.5, equal_var=True, n_obs=777,
+                                   n_resamples=11, power=0.55, ratio=3, use_t=False):
+                if _fingerprint(m) != fp:
+                    trace.append(("results of an existing metric depend on the configuration in force at call time", None))
+        except Exception as e:
+            trace.append((f"config_context failed: {e!r}", None))
     cfg = {n: idx(v) for n, v in C._global_config.items()}
-    recs = [[(n, idx(getattr(m, n))) for n in CTOR_ORDER(m)] for m, _ in metrics]
+    recs = [[(n, idx(getattr(m, n))) for n in CTOR_ORDER(m)] for m, _, _ in metrics]
     return cfg, recs, out, trace
 
 
